@@ -23,6 +23,7 @@ FOREIGN_LOOP_CLIENT = [False]
 # socket.connect() raises this (not an OSError) in every world created while it is set; and: connections created without a stop callback
 CONNECT_EXC: list[BaseException | None] = [None]
 NO_STOP_CALLBACK = [False]
+NODELAY_EXC: list[BaseException | None] = [None]  # setsockopt(TCP_NODELAY) on the connected socket raises this
 _FOREIGN_LOOP: list[Any] = []  # one per process, never run, never closed
 
 
@@ -324,6 +325,7 @@ class ConnWorld(World):
             )
             self.conn = APIConnection(self.params, None if NO_STOP_CALLBACK[0] else self._on_stop, debug, None)
         self.net.connect_exc = CONNECT_EXC[0]
+        self.net.nodelay_exc = NODELAY_EXC[0]
         self._fed = 0  # bytes of client output already given to the noise device
 
     @staticmethod
